@@ -13,6 +13,7 @@ Emitted per path: the exit (return <expr> / raise <callee> / end) and the sequen
     close v    close(v) / fclose(v)
     wrap v     janet_stream(v, ...) / make_stream / janet_makefile / janet_makejfile: an object with a finaliser owns it now
                (janet_stream_marshal: the duplicate travels in the marshalled message)
+    release o  janet_stream_close(o): an object that owns its descriptor is closed (no local gives anything up)
 
 each with the key `callee(first argument, locals as $k)` under which the site appears in Gen/Fds.lean (`fdSites`).  Lean replays every path
 (`Loop/FdPaths.lean`: a local that holds a descriptor is not overwritten, close / wrap only of a held local, nothing held at any
@@ -33,7 +34,17 @@ FUNCS = [
     ("os.c", "make_pipes"), ("os.c", "os_open"), ("os.c", "os_pipe"),
     ("io.c", "cfun_io_fopen"), ("io.c", "cfun_io_temp"),
     ("filewatch.c", "janet_watcher_init"),
+    # session 4b: functions whose balance depends on correlations between locals (loop left by `break` <=> the cursor is non-null <=>
+    # the last socket() succeeded; `addr` set <=> a socket is held) or on what the caller hands in
+    ("net.c", "cfun_net_connect"), ("net.c", "cfun_net_listen"), ("os.c", "get_stdio_for_handle"),
 ]
+# caller contract of a function that takes over a descriptor it did not create: (parameter that decides, parameter handed in).
+# get_stdio_for_handle(handle, orig, iswrite): `orig == NULL` <=> `handle` is the parent's end of a pipe os_execute_impl made with
+# make_pipes (nobody else owns it: the callee must wrap it); otherwise `handle` is the descriptor of the stream / file `orig`, which keeps it.
+ENTRY = {"get_stdio_for_handle": ("orig", "handle")}
+# right-hand sides taken to be non-null / non-zero when assigned to a plain local (assumptions about libc's getaddrinfo results and
+# about janet_get_addrinfo, which raises instead of returning NULL)
+NONNULL_RHS = [r"\w+->ai_addr", r"\(void\*\)ai"]
 # creating calls that store ONE descriptor in the assigned lvalue
 CREATE1 = ["dup", "open", "socket", "accept4", "accept", "inotify_init1", "epoll_create1", "timerfd_create", "fopen", "tmpfile"]
 # creating calls that fill a two-element array given as first argument and return non-zero on failure
@@ -41,6 +52,8 @@ CREATE2 = ["pipe", "janet_make_pipe"]
 MOVE = ["fdopen"]
 CLOSE = ["close", "fclose"]
 WRAP = ["janet_stream", "janet_stream_ext", "make_stream", "janet_makefile", "janet_makejfile"]
+# closing an OBJECT that already owns its descriptor (a site of the table; no local gives anything up)
+RELEASE = ["janet_stream_close"]
 # hand-over that is not a wrapping call: (function, callee)
 HANDOVER = [("janet_stream_marshal", "janet_marshal_int")]
 PANIC_RX = r"janet_panic\w*"
@@ -222,6 +235,43 @@ def _mark(fn, body):
     return body
 
 
+def _truth_leaf(c):
+    """c tests whether a plain local is non-zero / non-null -> (name, True) ; zero / null -> (name, False); else None"""
+    c = re.sub(r"(?<![\w\]\)])\(([A-Za-z_]\w*)\)", r"\1", _strip_parens(c))
+    if re.fullmatch(r"[A-Za-z_]\w*", c):
+        return c, True
+    z = "(?:0|" + re.escape(NULLP) + ")"
+    m = re.fullmatch(r"([A-Za-z_]\w*)(==|!=)" + z, c) or re.fullmatch(z + r"(==|!=)([A-Za-z_]\w*)", c)
+    if m:
+        g = m.groups()
+        name, op = (g[0], g[1]) if g[1] in ("==", "!=") else (g[1], g[0])
+        return name, op == "!="
+    return None
+
+
+def _learn(cond, val):
+    """facts implied by `cond` evaluating to `val` (only what follows for certain: every conjunct of a true &&, every disjunct of a false ||)"""
+    c = _strip_parens(_unmark(cond))
+    parts = _split_top(c, "||")
+    if len(parts) > 1:
+        out = {}
+        if not val:
+            for p in parts:
+                out.update(_learn(p, False))
+        return out
+    parts = _split_top(c, "&&")
+    if len(parts) > 1:
+        out = {}
+        if val:
+            for p in parts:
+                out.update(_learn(p, True))
+        return out
+    if c.startswith("!") and not c.startswith("!="):
+        return _learn(c[1:], not val)
+    tl = _truth_leaf(c)
+    return {"=" + tl[0]: tl[1] == val} if tl else {}
+
+
 class State:
     __slots__ = ("events", "outcome")
 
@@ -243,6 +293,18 @@ class State:
     def get(self, name):
         return dict(self.outcome).get(name)
 
+    def with_facts(self, facts):
+        """facts: {'=x': True | False | None (forget)}"""
+        if not facts:
+            return self
+        d = dict(self.outcome)
+        for k, v in facts.items():
+            if v is None:
+                d.pop(k, None)
+            else:
+                d[k] = v
+        return State(self.events, d.items())
+
 
 def _uniq(states):
     seen, out = set(), []
@@ -259,7 +321,7 @@ class Walker:
         self.idmap = idmap or {}
         self.exits = []          # (kind, label, events)
         self.goto_depth = 0
-        names = CREATE1 + CREATE2 + MOVE + CLOSE + WRAP + [c for f, c in HANDOVER if f == fn]
+        names = CREATE1 + CREATE2 + MOVE + CLOSE + WRAP + RELEASE + [c for f, c in HANDOVER if f == fn]
         self.rx = re.compile(r"(?<![\w.>])(" + "|".join(sorted(names, key=lambda x: -len(x))) + "|" + PANIC_RX + "|" + RAISE_RX + r")(@\d+)?\s*\(")
 
     # ---- conditions -------------------------------------------------------------------------------------------
@@ -278,7 +340,14 @@ class Walker:
         if c.startswith("!"):
             v = self.classify(c[1:], st)
             return None if v is None else (not v)
+        tl = _truth_leaf(c)
+        if tl is not None:
+            fact = st.get("=" + tl[0])
+            if fact is not None:
+                return fact == tl[1]
         for name, ok in st.outcome:
+            if name.startswith("="):
+                continue
             n = re.escape(name)
             if name.endswith(")"):
                 # the creating call itself used as a condition: non-zero = failure
@@ -341,6 +410,8 @@ class Walker:
                 states = [s.with_event(("close", arg, "", key)) for s in states]
             elif callee in WRAP:
                 states = [s.with_event(("wrap", arg, "", key)) for s in states]
+            elif callee in RELEASE:
+                states = [s.with_event(("release", arg, "", key)) for s in states]
             else:   # HANDOVER: the descriptor is the last argument; only a local created on this path counts
                 last = _norm_var(_split_top(inside, ",")[-1])
                 states = [s.with_event(("wrap", last, "", callee)) if s.get(last) is True else s for s in states]
@@ -360,15 +431,39 @@ class Walker:
 
     def branch(self, cond, states):
         """-> (states where cond holds, states where it does not); the events of cond are performed first"""
-        states = self.expr(cond, states)
+        states = self.assigns(cond, self.expr(cond, states))
         t, f = [], []
         for s in states:
             v = self.classify(cond, s)
             if v is not False:
-                t.append(s)
+                t.append(s if v is True else s.with_facts(_learn(cond, True)))
             if v is not True:
-                f.append(s)
+                f.append(s if v is False else s.with_facts(_learn(cond, False)))
         return t, f
+
+    def assigns(self, text, states):
+        """facts about plain locals (`=x` -> is x non-zero / non-null) updated by the assignments of a statement / expression"""
+        upd = {}
+        t = _unmark(text).strip().rstrip(";")
+        for part in _split_top(t, ","):
+            m = re.match(r"^(?:[\w\s\*]*?[\s\*])?([A-Za-z_]\w*)\s*=(?!=)\s*(.+)$", part.strip(), re.S)
+            if m and not re.match(r"^(return|goto|case)\b", part.strip()):
+                rhs = _norm_var(m.group(2))
+                if rhs in ("0", NULLP):
+                    upd[m.group(1)] = False
+                elif re.fullmatch(r"[1-9]\d*", rhs) or any(re.fullmatch(rx, _ws(_strip_parens(m.group(2)))) for rx in NONNULL_RHS):
+                    upd[m.group(1)] = True
+                else:
+                    upd[m.group(1)] = None
+        for m in re.finditer(r"(?<![\w.>\]])([A-Za-z_]\w*)\s*(?:(?:[-+*/|&^%]|<<|>>)=(?!=)|\+\+|--)", t):
+            upd[m.group(1)] = None
+        for m in re.finditer(r"(?:\+\+|--)\s*([A-Za-z_]\w*)\b(?!\s*[.\[(-])", t):
+            upd[m.group(1)] = None
+        for m in re.finditer(r"(?<!&)&\s*([A-Za-z_]\w*)\b(?!\s*[.\[(]|\s*->)", t.replace("&&", "  ")):
+            upd[m.group(1)] = None           # address taken: the callee may store anything
+        if not upd:
+            return states
+        return _uniq([s.with_facts(dict(("=" + k, v) for k, v in upd.items())) for s in states])
 
     def ret(self, expr, states):
         q = _split_top(_strip_parens(expr), "?")
@@ -433,7 +528,7 @@ class Walker:
             if m:
                 self.ret(m.group(1), cur)
                 return [], [], []
-            return _uniq(self.expr(txt, cur)), [], []
+            return self.assigns(txt, _uniq(self.expr(txt, cur))), [], []
         if k == "if":
             t, f = self.branch(n[1], cur)
             f1, b1, c1 = self.node(n[2], t) if n[2] else (t, [], [])
@@ -445,7 +540,7 @@ class Walker:
                 parts = _split_top(head, ";")
                 if len(parts) != 3:
                     raise ExtractError("%s: for header not understood" % self.fn)
-                cur = self.expr(parts[0], cur)
+                cur = self.assigns(parts[0], self.expr(parts[0], cur))
                 head, step = parts[1] or "1", parts[2]
             else:
                 step = ""
@@ -457,7 +552,7 @@ class Walker:
                     out += f
                 fall, b, c = self.node(n[2], states) if n[2] else (states, [], [])
                 out += b
-                states = _uniq(self.expr(step, fall + c)) if step else _uniq(fall + c)
+                states = self.assigns(step, _uniq(self.expr(step, fall + c))) if step else _uniq(fall + c)
             t, f = self.branch(head, states)
             out += f           # (paths that would go round a third time are cut here)
             return _uniq(out), [], []
@@ -491,7 +586,14 @@ def extract(tree):
             raise ExtractError("path walk: function %s not found in %s" % (fn, f))
         top = _parse_nodes(_mark(fn, body).strip()[1:-1])
         w = Walker(fn, top, _fds.ident_map(fn, body))
-        fall, b, c = w.nodes(top, [State()])
+        start = [State()]
+        if fn in ENTRY:
+            decides, handed = ENTRY[fn]
+            if not re.search(r"\b%s\b" % decides, body) or not re.search(r"\b%s\b" % handed, body):
+                raise ExtractError("path walk: %s no longer has the parameters %s / %s" % (fn, decides, handed))
+            start = [State([("create", handed, "", "entry:" + handed)], {"=" + decides: False, handed: True}.items()),
+                     State((), {"=" + decides: True}.items())]
+        fall, b, c = w.nodes(top, start)
         if b or c:
             raise ExtractError("%s: break / continue outside a loop" % fn)
         for s in fall:
